@@ -67,6 +67,9 @@ func (ft *ftrans) assignCall(s *ast.AssignStmt, def bool, e *env) {
 	for _, d := range dsts {
 		if d.j < 0 {
 			ft.noteScalarWrite(e, d.v)
+			if (ci.builtin == "add64" || ci.builtin == "sub64") && len(s.Lhs) == 2 && isIdent(unparen(s.Lhs[1]), d.v.name) {
+				e.st[d.v].carry = true // second result of bits.Add64 / Sub64
+			}
 		} else {
 			ft.afterWriteLimb(e, d.v, d.j)
 		}
@@ -91,6 +94,17 @@ func (ft *ftrans) returnStmt(s *ast.ReturnStmt, e *env) {
 		}
 		if v == nil || !v.ptrParam {
 			p.failAt(s, "%s: the returned *Element is not one of the pointer parameters", ft.sum.key)
+		}
+		// WHICH pointer is returned is not part of the generated definition (callers
+		// only use it to resolve chains), so it must be the conventional one: the
+		// receiver, i.e. the first pointer parameter.
+		for _, pv := range ft.pvars {
+			if pv.ptrParam {
+				if pv != v {
+					p.failAt(s, "%s: returns the pointer %s; a *Element result must be the receiver / first pointer parameter %s", ft.sum.key, v.name, pv.name)
+				}
+				break
+			}
 		}
 		if ft.sum.retAlias != "" && ft.sum.retAlias != v.name {
 			p.failAt(s, "%s: returns %s here and %s elsewhere", ft.sum.key, v.name, ft.sum.retAlias)
